@@ -19,6 +19,8 @@ EXTENDS Naturals, Sequences
 
 PassedThrough(reached, injected) == reached = injected
 IsPrefix(w, f) == Len(w) <= Len(f) /\ (Len(w) = 0 \/ SubSeq(f, 1, Len(w)) = w)
+\* "as if the failed one had not happened": library-global state right after the failed call is what it was before it
+StateRestored(g, g0) == g = g0
 \* "the next call behaves as if the failed one had not happened" (C11's H for the follow-up call)
 LeftUsable(next, nextFresh, g, g0) == next = nextFresh /\ g = g0
 =============================================================================
